@@ -134,9 +134,10 @@ fn(A + 'operator=', TU, sig='&(base_array<', key='base_array::operator=(move)', 
    ensures=[('moved', 'this == old.rhs')])
 
 # join a sequence of arrays (include/dsplib/utils.h): lengths add, elements in order, empty arguments contribute nothing
-for T, key in (('dsplib::base_array<dsplib::real_t>', 'real'), ('dsplib::base_array<dsplib::cmplx_t>', 'cmplx')):
+for T, key, vf in (('dsplib::base_array<dsplib::real_t>', 'real', True), ('dsplib::base_array<dsplib::cmplx_t>', 'cmplx', True),
+                   ('dsplib::base_array<double>', 'real (other spelling of the same instantiation)', False)):
     fn('dsplib::concatenate', 'drivers/instantiate.cpp', sig='(const %s &' % T, key='concatenate<%s>' % key,
-       serves=['C03', 'C05'], pure=True,
+       serves=['C03', 'C05'], pure=True, verify=vf,
        requires=[('size', 'a1.len + a2.len + a3.len + a4.len + a5.len <= INT_MAX')], throws='False',
        lets={'o2': 'a1.len', 'o3': 'a1.len + a2.len', 'o4': 'a1.len + a2.len + a3.len', 'o5': 'a1.len + a2.len + a3.len + a4.len'},
        ensures=[('length', 'result.len == a1.len + a2.len + a3.len + a4.len + a5.len'),
